@@ -524,6 +524,52 @@ func runC20(r *core.Run) {
 			return core.Outcome{Class: kind, Nontrivial: true}
 		})
 
+	type labelCase struct {
+		Where int    `json:"label_position"` // 0,1: header columns; 2,3: row labels
+		Token core.S `json:"token"`
+	}
+	r.Bound("multichar-labels", "the table ' A B / A 1 2 / B 3 4' (A, B also as the bytes 0xC3, 0xA9) with one label replaced by: every 2-byte token free of whitespace (65 536 minus those), the UTF-8 encoding of every code point U+0800..U+FFFF"+core.Pick(r, "", " and U+10000..U+10FFFF")+"; row labels never start with '#' (that would be a comment line)")
+	core.Clause(r, "readncbi-multichar-labels", core.Opts{Rule: "a label token of more than one BYTE is a multi-character label whatever its bytes are (one rune in UTF-8, two letters, a letter and '*'): (nil, error), never a matrix; non-trivial = all"},
+		func(emit func(labelCase) bool) {
+			ws := func(b int) bool {
+				return b == '\t' || b == '\n' || b == '\f' || b == '\r' || b == ' '
+			}
+			for where := 0; where < 4; where++ {
+				for a := 0; a < 256; a++ {
+					if ws(a) || (a == '#' && where >= 2) {
+						continue
+					}
+					for b := 0; b < 256; b++ {
+						if !ws(b) && !emit(labelCase{where, core.S([]byte{byte(a), byte(b)})}) {
+							return
+						}
+					}
+				}
+				hi := rune(0xFFFF)
+				if r.Thorough() {
+					hi = 0x10FFFF
+				}
+				if !enum.Runes(0x800, hi, func(cp rune) bool { return emit(labelCase{where, core.S(string(cp))}) }) {
+					return
+				}
+			}
+		},
+		func(c labelCase) core.Outcome {
+			for _, labels := range [][2]string{{"A", "B"}, {"\xc3", "\xa9"}} {
+				tok := [4]string{labels[0], labels[1], labels[0], labels[1]}
+				tok[c.Where] = string(c.Token)
+				text := " " + tok[0] + " " + tok[1] + "\n" + tok[2] + " 1 2\n" + tok[3] + " 3 4\n"
+				m, err, pn := readNCBI(text)
+				if pn != "" {
+					return core.Failf("ReadNCBI panicked on %q: %s", text, pn)
+				}
+				if err == nil || m != nil {
+					return core.Failf("ReadNCBI(%q) with the %d-byte label %q returned matrix %v, error %v; want (nil, error)", text, len(c.Token), string(c.Token), m, err)
+				}
+			}
+			return core.Outcome{Class: fmt.Sprint("token bytes=", len(c.Token), " where=", c.Where), Nontrivial: true, Evals: 2}
+		})
+
 	type bigCase struct {
 		N     int    `json:"labels"`
 		Chunk int    `json:"read_chunk"` // 0 = whole input in one Read
